@@ -486,7 +486,8 @@ func TestC18_FaultEnumeration(t *testing.T) {
 		}
 		// the template directory itself is absent, misspelled, or a path through a regular file: loading fails and says which directory
 		anyFile := base.Paths()[0]
-		for _, d := range []string{"tt", "T", "t/gone", "t2/t", anyFile, anyFile + "/views"} {
+		for _, d := range []string{"tt", "T", "t/gone", "t2/t", anyFile + "/views"} {
+			// (a template directory that is itself a regular file is taken as a one-file tree: no statement speaks about it)
 			run(faultCase{Tree: base, Faulty: d, Op: "template-directory-unusable", MustFail: true, Mention: []string{d}, Dir: d})
 		}
 		for _, p := range base.Paths() {
